@@ -353,13 +353,18 @@ def lits(v):
 # ------------------------------------------------------------------ dynamic registration variant
 DYN_FILES = {
     'c06a/__init__.py': '', 'c06b/__init__.py': '',
+    # a top-level package whose name starts with an upper-case letter (PIL, Bio, Crypto, ...): it
+    # sorts before '__gin__'
+    'Zc06/__init__.py': '',
+    'Zc06/utils.py': 'def make(x=None, y=None):\n  return ("Z.utils", x, y)\n',
     'c06a/utils.py': 'import gin\n\n@gin.register\ndef make(x=None, y=None):\n  return ("a.utils", x, y)\n',
     'c06b/utils.py': 'import gin\n\n@gin.register\ndef make(x=None, y=None):\n  return ("b.utils", x, y)\n',
     'c06a/other.py': ('def build(x=None, y=None):\n  return ("a.other", x, y)\n\n'
                       'class K:\n  def __init__(self, x=None):\n    self.x = x\n'),
 }
-DYN_MODULES = ['c06a.utils', 'c06b.utils', 'c06a.other']
-DYN_TARGETS = {'c06a.utils': ['make'], 'c06b.utils': ['make'], 'c06a.other': ['build', 'K']}
+DYN_MODULES = ['c06a.utils', 'c06b.utils', 'c06a.other', 'Zc06.utils']
+DYN_TARGETS = {'c06a.utils': ['make'], 'c06b.utils': ['make'], 'c06a.other': ['build', 'K'],
+               'Zc06.utils': ['make']}
 DYN_REF_SCOPES = ['', 's1', 's2/t', 's1']
 DYN_FORMS = ['import {m}', 'import {m} as {a}', 'from {p} import {l}', 'from {p} import {l} as {a}']
 
@@ -739,14 +744,14 @@ def _value(depth=2):
 
 @st.composite
 def _dyn_case(draw):
-  imports = draw(st.lists(st.tuples(st.integers(0, 2), st.integers(0, 3),
+  imports = draw(st.lists(st.tuples(st.integers(0, 3), st.integers(0, 3),
                                     st.sampled_from(['u', 'utils', 'mm'])).map(list),
                           min_size=1, max_size=3))
   bindings = draw(st.lists(
-      st.tuples(st.integers(0, 2), st.integers(0, 1), st.sampled_from(['x', 'y']),
+      st.tuples(st.integers(0, 3), st.integers(0, 1), st.sampled_from(['x', 'y']),
                 st.integers(0, 9) | st.sampled_from(['v', [1, 2]]),
                 st.sampled_from(['text', 'late'])).map(list),
-      min_size=1, max_size=5, unique_by=lambda b: (b[0] % 3, b[1], b[2])))
+      min_size=1, max_size=5, unique_by=lambda b: (b[0] % 4, b[1], b[2])))
   refs = draw(st.lists(st.tuples(st.sampled_from(['x', 'y']), st.integers(0, 3), st.integers(0, 1),
                                  st.integers(0, 1), st.booleans()).map(list),
                        max_size=2, unique_by=lambda r: r[0]))
